@@ -170,7 +170,7 @@ PROPS = {
         "assumptions": COMMON_ASSUMPTIONS + ["an Allocator cannot hold atoms >= 4 GiB; that part of the quantifier is only reached at the write_atom level"],
     },
     "C16": {
-        "variants": {"quick": ["rel", "asan"], "thorough": ["rel", "asan"]},
+        "variants": {"quick": ["rel", "asan"], "thorough": ["rel", "asan", "vg"]},
         "budget_s": (40, 320),
         "total": True,
         "exhaustive_key": "exhaustive_all_bytes",
@@ -193,7 +193,7 @@ PROPS = {
         "assumptions": COMMON_ASSUMPTIONS + ["salt override hook pins RandomState/TreeCache salts"],
     },
     "C18": {
-        "variants": {"quick": ["rel", "dbg", "asan"], "thorough": ["rel", "dbg", "asan"]},
+        "variants": {"quick": ["rel", "dbg", "asan"], "thorough": ["rel", "dbg", "asan", "vg"]},
         "budget_s": (40, 320),
         "total": True,
         "min_nontrivial": {"quick": 5000, "thorough": 50000},
@@ -264,7 +264,7 @@ PROPS = {
         "assumptions": COMMON_ASSUMPTIONS + ["API preconditions respected: undo states used in LIFO order, no add after completion"],
     },
     "C20": {
-        "variants": {"quick": ["rel", "asan"], "thorough": ["rel", "asan"]},
+        "variants": {"quick": ["rel", "asan"], "thorough": ["rel", "asan", "vg"]},
         "budget_s": (30, 300),
         "total": True,
         "min_nontrivial": {"quick": 2000, "thorough": 20000},
@@ -313,7 +313,7 @@ PROPS = {
         "assumptions": COMMON_ASSUMPTIONS,
     },
     "C25": {
-        "variants": {"quick": ["rel", "dbg", "asan"], "thorough": ["rel", "dbg", "asan"]},
+        "variants": {"quick": ["rel", "dbg", "asan"], "thorough": ["rel", "dbg", "asan", "vg"]},
         "budget_s": (25, 300),
         "total": True,
         "min_nontrivial": {"quick": 5000, "thorough": 50000},
